@@ -23,7 +23,7 @@ COMPONENTS = dict(real=["hio.base.during.Duror (suffix/unsuffix, cursor scans)",
 ASSUMPTIONS = ["the empty key is not generated (LMDB rejects it)"]
 PROBES = ["prefix_pair_written", "suffix_shaped_key", "tuple_keys", "reopen_between_ops", "ioset_duplicate_add", "pop_until_empty", "more_than_16_values"]
 BOUNDS = dict(quick=dict(ops=40, keys=6), thorough=dict(ops=100, keys=8))
-TIERS = dict(quick=dict(cases=8000, wall=45.0), thorough=dict(cases=150000, wall=420.0))
+TIERS = dict(quick=dict(cases=12000, wall=60.0), thorough=dict(cases=150000, wall=420.0))
 SIM_TIME_UNIT = "operations"
 
 H0 = "%032x" % 0
